@@ -458,16 +458,26 @@ def spec_prefix_states(ctx, traces):
     out = []
     for r in res:
         f = p_seq.fields(r)[1:]
-        sts = []
+        sts = PrefixStates()
         i = 0
         # f = [state0, read0, (acc|rej|illegal, state, read)*]
         sts.append((f[0], f[1]))
         i = 2
         while i + 2 < len(f) + 1 and i + 2 <= len(f):
+            if f[i] == "illegal" and sts.legal_upto is None:
+                # not a Raft-legal history from this write on (a purge point that neither names an
+                # entry nor lies beyond the log): the reference log does not speak after it
+                sts.legal_upto = len(sts) - 1
             sts.append((f[i + 1], f[i + 2]))
             i += 3
         out.append(sts)
     return out
+
+
+class PrefixStates(list):
+    """(state, read) after each prefix of the accepted writes; legal_upto = number of writes
+    before the first one that is not Raft-legal (None: the whole history is legal)"""
+    legal_upto = None
 
 
 def crash_images(rnd, files, synced, thorough):
@@ -595,6 +605,9 @@ def run_crash(ctx, prop):
                 sts = prefixes[m["trace"]]
                 got = (p_seq.state_of_stat(f[1]), f[2])
                 ks = [k for k, st in enumerate(sts) if st == got]
+                if not ks and sts.legal_upto is not None and m["issued"] > sts.legal_upto:
+                    ctx.count("oracle_skipped_after_illegal_purge")
+                    continue
                 if not ks:
                     why = "the recovered state and entries are not those of any prefix of the writes issued before the crash"
                 elif max(ks) < m["acked"]:
@@ -679,6 +692,15 @@ def run_C08(ctx):
         items += [rnd.choice(["w 1", "w 2", "w 3"]), "snap"] * rnd.randint(1, 4) + ["wi", "snap", "F 1", "wi", "snap", "G"]
         cases.append("TRACE %s | %s" % (cfg, " ; ".join(items)))
         ctx.count("failed_sync_of_closed_chunk_schedules")
+    # the request channel (1024 slots) exactly full when a purge is flushed: the removal request
+    # must still reach the worker
+    for n in ([1023] if not ctx.thorough() else [1022, 1023, 1024]):
+        R = 5                                              # A0..A3 fill the first chunk; the purge record does not fill the second
+        cfg = "100000 1073741824 %d 1073741824 1 64" % R
+        items = ["A 1 %d x%02x" % (i, i) for i in range(4)] + ["F 1", "wi", "A 1 4 x04", "F 1", "w 1"]
+        items += ["burst %d 0 P 1 3" % n, "wi", "G", "snap"]
+        cases.append("TRACE %s | %s" % (cfg, " ; ".join(items)))
+        ctx.count("channel_full_at_purge_flush")
     # the purge record itself fills the open chunk (the rotation hands the bytes to the worker, a
     # following flush has nothing pending), flushed with and without a callback
     for j in range(ctx.scale(12, 80)):
@@ -737,6 +759,9 @@ def run_C08(ctx):
             else:
                 got = (p_seq.state_of_stat(f[1]), f[2])
                 ks = [k for k, st in enumerate(prefixes[m["trace"]]) if st == got]
+                if not ks and prefixes[m["trace"]].legal_upto is not None and m["issued"] > prefixes[m["trace"]].legal_upto:
+                    ctx.count("oracle_skipped_after_illegal_purge")
+                    continue
                 if not ks:
                     why = "a chunk file was deleted before the purge that made it obsolete was durable: the synced bytes recover a state that is no prefix of the history"
                 elif any(x.startswith("err") for x in f[2].split()[1:]):
@@ -744,7 +769,7 @@ def run_C08(ctx):
             if why:
                 bad += 1
                 if bad <= 3:
-                    ctx.fail("oracle", "C08 oracle: " + why, dict(kind="image", case=c[:6000], from_trace=sel_cases[m["trace"]][:3000], observed=a[:600]))
+                    ctx.fail("oracle", "C08 oracle: " + why, dict(kind="image", case=c[:6000], from_trace=sel_cases[m["trace"]][:100000], observed=a[:600]))
     # liveness: fault-free traces end with flush + idle: the files that remain are exactly the chunks of the final stat
     for c, l, v in zip(cases, logs, views):
         if v is None or "fault" in c:
@@ -784,6 +809,8 @@ def run_C14(ctx):
             # a long hold: a drop that gives up waiting for the worker after a deadline shows only here
             kind = "dropheld %d" % ctx.scale(3500, 12000)
             hold = rnd.choice([1, 2, 3])
+        if rnd.random() < 0.3:
+            items.append("DSK")            # a snapshot that outlives the store must not keep the directory locked
         items += ["F 1", "w %d" % hold, kind, "release", "open " + cfg, "G", "R 0 100000"]
         last = sim.last()
         if last is not None:
